@@ -63,6 +63,13 @@ fn main() {
         "hist-c02" => { cases.prop = "C02".into(); c_hist::generate(&mut cases, &mut rng, thorough, "C02") }
         "hist-c03" => { cases.prop = "C03".into(); c_hist::generate(&mut cases, &mut rng, thorough, "C03") }
         "hist-c16" => { cases.prop = "C16".into(); c_hist::generate(&mut cases, &mut rng, thorough, "C16") }
+        "hist-c17" => {
+            // reader cursors and their clones under the poisoning allocator: freed memory reads as 0xDD
+            cases.prop = "C17".into();
+            alloc_track::ENABLED.store(true, std::sync::atomic::Ordering::Relaxed);
+            c_hist::generate(&mut cases, &mut rng, thorough, "C17");
+            alloc_track::ENABLED.store(false, std::sync::atomic::Ordering::Relaxed);
+        }
         "hist-c10" => { cases.prop = "C10".into(); c_hist::generate(&mut cases, &mut rng, thorough, "C10") }
         "iter-c04" => { cases.prop = "C04".into(); c_hist::generate_iter(&mut cases, &mut rng, thorough, "C04") }
         "iter-c05" => { cases.prop = "C05".into(); c_hist::generate_iter(&mut cases, &mut rng, thorough, "C05") }
@@ -76,8 +83,8 @@ fn main() {
         "io-read" => { cases.prop = "C11".into(); c_io::generate_c11_read(&mut cases, &mut rng, thorough) }
         "faults-c12" => { cases.prop = "C12".into(); c_io::generate_c12(&mut cases, &mut rng, thorough) }
         "C14-big" => {
-            match util::catch(c14::big_entry) {
-                Ok(Ok(())) => println!("DIRECT ok 2^28-byte value round trip"),
+            match util::catch(|| c14::big_entry(thorough)) {
+                Ok(Ok(())) => println!("DIRECT ok 2^21-byte key with 2^28-byte value round trip"),
                 Ok(Err(e)) => println!("DIRECT fail big entry: {}", e),
                 Err(e) => println!("DIRECT fail big entry panicked: {}", e),
             }
